@@ -66,6 +66,8 @@ def ensure_files():
     wg.write_fcs(os.path.join(d, 'cell_lin.fcs'), wg.cell_layout(I1, stream=21, linear_fl=True))
     wg.write_fcs(os.path.join(d, 'cell_volt.fcs'), wg.cell_layout(I1, stream=22, voltage_shift=7))
     wg.write_fcs(os.path.join(d, 'cell_i2.fcs'), wg.cell_layout(I2, stream=23))
+    I1sw = dict(I1, fl=[FL2, FL1])            # the same instrument, the two fluorescence parameters stored in the other order
+    wg.write_fcs(os.path.join(d, 'cell_sw.fcs'), wg.cell_layout(I1sw, stream=25, n=860, voltages=[525, 500]))
     wg.write_fcs(os.path.join(d, 'cell_volt0.fcs'), wg.cell_layout(I1, stream=24, voltage_shift=-500))     # detector voltage of FL1 exactly 0
     return d
 
@@ -236,6 +238,14 @@ def cases(tier, seed):
     for f in ['units=' + u for u in BAD_UNITS] + ['fraction=%r' % x for x in BAD_FRACTIONS]:
         for rows in ([f], ['ok', f], [f, 'ok'], ['ok', f, 'ok']) if tier == 'thorough' else ([f], [f, 'ok']):
             yield dict(kind='samples', rows=rows)
+    # files of one instrument that store the calibrated channels at different parameter positions, in every order of the rows
+    for perm in itertools.permutations(['A', 'SW', 'C']):
+        yield dict(kind='layouts', rows=list(perm))
+    yield dict(kind='layouts', rows=['NF', 'SW', 'A'])
+    yield dict(kind='layouts', rows=['A', 'NF', 'SW', 'C'])
+    # a table that already carries the result columns of an earlier analysis, analysed again after rows have become faulty
+    for bad in (['B'], ['C'], ['A', 'B'], ['A', 'B', 'C'], []):
+        yield dict(kind='reanalysis', now_faulty=bad)
     B = BEAD_FAULTS
     yield dict(kind='beads', rows=[])
     for f in ['fraction=%r' % x for x in BAD_FRACTIONS]:
@@ -267,11 +277,148 @@ def single_fp(pos, variant):
     return _SINGLE[key]
 
 
+def fresh_flow(rows, st=None):
+    """the documented flow from scratch (bead rows processed anew, nothing shared with other tables); returns (samples, table)"""
+    import FlowCal
+    ui = FlowCal.excel_ui
+    d = ensure_files()
+    wb = os.path.join(d, 'fresh_%d.xlsx' % os.getpid())
+    wg.write_workbook(wb, [I1, I2], bead_rows('A'), rows, mef_channels_cols=[FL1, FL2], unit_channels_cols=[FL1, FL2])
+    inst = ui.read_table(wb, 'Instruments', 'ID')
+    bt = ui.read_table(wb, 'Beads', 'ID')
+    if st is None:
+        st = ui.read_table(wb, 'Samples', 'ID')
+    np.random.seed(1)
+    with warnings.catch_warnings():
+        warnings.simplefilter('ignore')
+        bs, fx, outs = ui.process_beads_table(bt, inst, base_dir=d, verbose=False, plot=False, full_output=True)
+        ui.add_beads_stats(bt, bs, outs)
+        samples = ui.process_samples_table(st, inst, mef_transform_fxns=fx, beads_table=bt, base_dir=d, verbose=False, plot=False)
+        ui.add_samples_stats(st, samples)
+    return samples, st
+
+
+LAYOUT_ROWS = {'A': dict(id='RA', inst='INST1', beads='B_OK', file='cell_0.fcs', gate_fraction=0.85, units={FL1: 'MEF', FL2: 'RFI'}),
+               'SW': dict(id='RSW', inst='INST1', beads='B_OK', file='cell_sw.fcs', gate_fraction=0.7, units={FL1: 'MEF', FL2: 'MEF'}),
+               'C': dict(id='RC', inst='INST1', beads='B_OK', file='cell_1.fcs', gate_fraction=0.5, units={FL1: 'MEF', FL2: None}),
+               'NF': dict(id='RNF', inst='INST1', beads='B_OK', file='not_there.fcs', gate_fraction=0.5, units={FL1: 'MEF', FL2: 'RFI'})}
+RESULT_COLS = ['%s %s' % (ch, sc) for ch in (FL1, FL2) for sc in STAT_COLS + ['Detector Volt.', 'Amp. Type']] + ['Number of Events', 'Acquisition Time (s)']
+
+
+def empty(v):
+    return v is None or v != v or v == ''
+
+
+def run_layouts(c, res):
+    import FlowCal
+    ui = FlowCal.excel_ui
+    rows = [dict(LAYOUT_ROWS[k]) for k in c['rows']]
+    what = 'Samples table with rows %s (files %s)' % (c['rows'], [r['file'] for r in rows])
+    one = dict(c)
+    try:
+        samples, st = fresh_flow(rows)
+    except Exception as e:
+        res.violation('layouts:batch-aborted:%s' % type(e).__name__, '%s: %s escaped: %s' % (what, type(e).__name__, e), one)
+        return
+    if list(samples.keys()) != [r['id'] for r in rows]:
+        res.violation('layouts:keys', '%s: results keyed %s' % (what, list(samples.keys())), one)
+        return
+    ok = True
+    for k, r in zip(c['rows'], rows):
+        s = samples[r['id']]
+        if k == 'NF':
+            if not isinstance(s, ui.ExcelUIException) or not str(st.loc[r['id'], 'Analysis Notes']).startswith('ERROR:'):
+                res.violation('layouts:fault-not-reported', '%s: the row with the missing file yielded %s' % (what, type(s).__name__), one)
+                ok = False
+            continue
+        if isinstance(s, Exception):
+            res.violation('layouts:healthy-row-failed', '%s: healthy row %s failed: %s' % (what, r['id'], s), one)
+            ok = False
+            continue
+        ref_samples, ref_st = fresh_flow([dict(LAYOUT_ROWS[k])])
+        ref = ref_samples[r['id']]
+        if isinstance(ref, Exception):
+            raise RuntimeError('reference row failed: %s' % ref)
+        if fp(s) != fp(ref):
+            res.violation('layouts:healthy-row-differs', '%s: healthy row %s differs from its single-row run: %s' % (what, r['id'], diff(fp(s), fp(ref))), one)
+            ok = False
+            continue
+        bad = [col for col in RESULT_COLS if col in ref_st.columns and not (st.loc[r['id'], col] == ref_st.loc[r['id'], col] or (empty(st.loc[r['id'], col]) and empty(ref_st.loc[r['id'], col])))]
+        if bad:
+            res.violation('layouts:healthy-row-stats-differ', '%s: result columns of healthy row %s differ from its single-row run in %s' % (what, r['id'], bad[:4]), one)
+            ok = False
+    if ok:
+        res.ok('layouts', True)
+    res.sample({'table': 'Samples', 'rows': c['rows'], 'files': [r['file'] for r in rows]})
+
+
+def run_reanalysis(c, res):
+    import FlowCal
+    ui = FlowCal.excel_ui
+    rows = [dict(LAYOUT_ROWS[k], id='R' + k) for k in ('A', 'C')] + [dict(LAYOUT_ROWS['A'], id='RB', file='cell_2.fcs', gate_fraction=0.3)]
+    rows = [rows[0], rows[2], rows[1]]             # RA, RB, RC
+    one = dict(c)
+    samples1, st = fresh_flow(rows)
+    first = {r['id']: st.loc[r['id']].to_dict() for r in rows}
+    if any(isinstance(v, Exception) for v in samples1.values()):
+        raise RuntimeError('first analysis failed: %r' % samples1)
+    # the output table (with every result column filled in) becomes the input of a second analysis, written and read back as a workbook
+    d = ensure_files()
+    wb2 = os.path.join(d, 're_%d.xlsx' % os.getpid())
+    ui.write_workbook(wb2, [('Samples', st)])
+    st2 = ui.read_table(wb2, 'Samples', 'ID')
+    for k in c['now_faulty']:
+        if k == 'B':
+            st2.loc['RB', 'File Path'] = 'gone.fcs'
+        elif k == 'C':
+            st2.loc['RC', 'Gate Fraction'] = 1.5
+        else:
+            st2.loc['RA', '%s Units' % FL2] = 'furlongs'
+    what = 'second analysis of a table that carries the results of a first one, rows %s now faulty' % c['now_faulty']
+    try:
+        samples2, st2 = fresh_flow(rows, st=st2)
+    except Exception as e:
+        res.violation('reanalysis:batch-aborted:%s' % type(e).__name__, '%s: %s escaped: %s' % (what, type(e).__name__, e), one)
+        return
+    ok = True
+    for r in rows:
+        rid = r['id']
+        faulty = rid[1:] in c['now_faulty']
+        s = samples2[rid]
+        if faulty:
+            if not isinstance(s, ui.ExcelUIException) or not str(st2.loc[rid, 'Analysis Notes']).startswith('ERROR:'):
+                res.violation('reanalysis:fault-not-reported', '%s: row %s yielded %s, note %r' % (what, rid, type(s).__name__, st2.loc[rid, 'Analysis Notes']), one)
+                ok = False
+                continue
+            stale = [col for col in RESULT_COLS if col in st2.columns and not empty(st2.loc[rid, col])]
+            if stale:
+                res.violation('reanalysis:stale-results', '%s: failing row %s still shows %s = %r from the earlier analysis' % (what, rid, stale[0], st2.loc[rid, stale[0]]), one)
+                ok = False
+        else:
+            if isinstance(s, Exception):
+                res.violation('reanalysis:healthy-row-failed', '%s: healthy row %s failed: %s' % (what, rid, s), one)
+                ok = False
+                continue
+            bad = [col for col in RESULT_COLS if col in st2.columns and not (st2.loc[rid, col] == first[rid].get(col) or (empty(st2.loc[rid, col]) and empty(first[rid].get(col))))]
+            if bad or fp(s) != fp(samples1[rid]):
+                res.violation('reanalysis:healthy-row-differs', '%s: healthy row %s differs from the first analysis (%s)' % (what, rid, bad[:3]), one)
+                ok = False
+    if ok:
+        res.ok('reanalysis', True)
+    res.sample({'reanalysis': 'rows now faulty: %s' % c['now_faulty']})
+
+
 def run_case(c):
     import FlowCal
     ui = FlowCal.excel_ui
     res = Result()
     ensure_files()
+    if c['kind'] == 'layouts':
+        run_layouts(c, res)
+        return res
+    if c['kind'] == 'reanalysis':
+        run_reanalysis(c, res)
+        return res
     if c['kind'] == 'samples':
         faults = c['rows']
         order = c.get('order') or list(range(len(faults)))
